@@ -27,6 +27,8 @@ SCORE_KINDS = [
     "perm",  # permutation of distinct integers (tie-free, exactly representable)
     "mixed_int_float",  # one class integer dtype, the other non-integer floats (dtype promotion when the classes are pooled)
     "mixed_f32_f64",  # one class float32, the other float64
+    "uint",  # unsigned integer dtypes (quantised scores): differences wrap, negation is not available
+    "int8wide",  # int8 spanning the whole dtype range: differences overflow
 ]
 
 
@@ -99,6 +101,17 @@ def scores(rng, min_pos=0, min_neg=0, maxn=40, kinds=None, big=False):
             pos, neg = ints, rng.uniform(0, 3, nneg)
         if len(ints) != (nneg if neg is ints else npos):  # pragma: no cover
             pos, neg = rng.uniform(0, 3, npos), rng.integers(0, 4, nneg)
+    elif kind == "uint":
+        dt = [np.uint8, np.uint16, np.uint64][int(rng.integers(0, 3))]
+        if rng.random() < 0.5:
+            pos, neg = rng.integers(0, 200, npos).astype(dt), rng.integers(0, 200, nneg).astype(dt)
+        else:  # distinct values
+            if npos + nneg > 250:
+                dt = np.uint16
+            allv = rng.permutation(max(250, npos + nneg))[: npos + nneg].astype(dt)
+            pos, neg = allv[:npos], allv[npos:]
+    elif kind == "int8wide":
+        pos, neg = rng.integers(-128, 128, npos).astype(np.int8), rng.integers(-128, 128, nneg).astype(np.int8)
     elif kind == "mixed_f32_f64":
         pos, neg = rng.normal(0.5, 1, npos), rng.normal(-0.5, 1, nneg)
         if rng.random() < 0.5:
